@@ -279,6 +279,10 @@ def c10(res, tier, deadline):
     for tag in ("prj", "prn", "prc"):
         runs.append(Run(tag, "flavour", fl, "C01,C03", extra="reupdate=1",
                         label="%s/plain/flavour" % tag))
+    # the unhashed projection flavour under AddressSanitizer: the v-table pointer
+    # vector is indexed by the ids themselves
+    runs.append(Run("prn", "flavour", "n=1-2,k=2,d=1,shapes=RR,limit=10;n=1-3,k=1,d=1,shapes=R,limit=8",
+                    "C01,C03", extra="reupdate=1,fresh=1", variant="asan", label="prn/asan/flavour"))
     e1.execute(res, runs, deadline_total=deadline)
     digests = {}
     for b in res.bounds:
